@@ -105,6 +105,10 @@ class CallMixin:
             yield st, SV(PyFunc, ("typeof", a[0]))
         elif name == "isinstance":
             yield st, SV(T.Bool, self.ev_isinstance(st, a[0], a[1]))
+        elif name == "dict" and len(a) == 1:
+            x = self.unwrap_opt(st, a[0], node, "dict-of-None")
+            if not isinstance(x.ty, T.Dict): raise VCError("dict() of %s" % x.ty)
+            yield st, SV(x.ty, x.t)          # containers are values in this encoding: a copy is the same value, detached from its source
         elif name == "set" and not a: yield st, SV(Display, [])
         elif name == "list" and not a: yield st, SV(Display, [])
         elif name == "print": yield st, SV(T.NoneT, z3.BoolVal(True))
